@@ -50,7 +50,8 @@ AEndOK(a, ev) ==
 AStep(a, ev) ==
   CASE ev.k = "start" -> [a EXCEPT !.empty = FALSE, !.op = ev.op, !.n = ev.n]
     [] ev.k = "read"  -> [a EXCEPT !.pos = a.pos + ev.m, !.failed = a.failed \/ ev.e # "nil",
-                                   !.empty = a.empty \/ (ev.m = 0 /\ ev.e = "nil")]
+                                   !.empty = a.empty \/ (ev.m = 0 /\ ev.e = "nil" /\ ev.want > 0)]
+                                   \* (a Read into a zero-length buffer returning 0 says nothing about the source)
     [] ev.k = "end"   -> [a EXCEPT !.c = a.rmark + ev.rl,
                                    !.gaveUp = a.gaveUp \/ (ev.e # "nil" /\ ~a.failed /\ a.empty)]
     [] ev.k = "release" -> [a EXCEPT !.rmark = a.c]
